@@ -18,6 +18,10 @@ import re
 from . import rsx
 from .core import REPO
 
+# Vacuity probe (thorough tier): when True every extracted function gets `proof { assert(false); }` as its first
+# statement; each of them must FAIL, else the function's precondition (or the admitted axioms in scope) is contradictory.
+PROBE = False
+
 _GHOST_OK = re.compile(r'^\s*(proof\s*\{|let ghost |invariant|invariant_except_break|ensures|decreases|assert|//|$)')
 
 
@@ -109,6 +113,9 @@ def build_fn(spec, dropped, located):
             body = body[:k] + text + '\n' + body[k:]
         else:
             raise ValueError(where)
+    if PROBE:
+        k = body.index('{')
+        body = body[:k + 1] + ' proof { assert(false); } ' + body[k + 1:]
     if spec.ret:
         sig = _name_return(sig, spec.ret)
     sig = re.sub(r'^pub\((crate|super)\)\s+', 'pub ', sig)
